@@ -32,8 +32,15 @@ theorem gen_guard_sites_modelled : Gen.Stack.guardSites.map (·.1) = probeSites 
 
 theorem gen_guard_fn : Gen.Stack.guardFns = [b!"check_stack"] := by decide
 
-/-- The documented budget: 4 MiB, half of the default 8 MiB main-thread stack. -/
-theorem gen_budget_doc : Gen.Stack.stackBudget = 4 * 1024 * 1024 := by decide
+/-- **Arithmetic obligation** on the extracted budget: the budget, the allowed overshoot past the budget
+line (measured by the check on the real binaries and required to stay within `overshootAllowance`), an
+ARG_MAX-scale environment block at the top of the main-thread stack, and the headroom fit into the
+default 8 MiB.  (With the pinned 4 MiB budget 1472 KiB are to spare; a budget above 5568 KiB fails.) -/
+theorem budget_fits_main_stack :
+    Gen.Stack.stackBudget + overshootAllowance + envAllowance + headroom ≤ mainStack := by decide
+
+/-- The budget is not degenerate: it leaves the evaluator at least 1 MiB. -/
+theorem budget_not_tiny : 1024 * 1024 ≤ Gen.Stack.stackBudget := by decide
 
 /-- Every function on a call cycle of runtime.rs (and every recursive builtin) is a frame of the model. -/
 theorem gen_recursive_fns_modelled :
